@@ -29,16 +29,36 @@ type gzipResponseWriter struct {
 
 	buf            bytes.Buffer
 	bufferExceeded bool // Track if we exceeded max buffer size
+	headerSent     bool // Track if the status line / headers went to the underlying writer
 }
 
+// WriteHeader records the status. The header is committed in Finish (or when buffering is
+// abandoned), after the decision to compress has fixed Content-Encoding / Content-Length.
 func (g *gzipResponseWriter) WriteHeader(code int) {
 	if g.wroteHeader {
+		return
+	}
+	// Informational (1xx) responses are interim: pass them on at once
+	if code >= 100 && code < 200 {
+		g.ResponseWriter.WriteHeader(code)
 		return
 	}
 
 	g.statusCode = code
 	g.wroteHeader = true
-	g.ResponseWriter.WriteHeader(code)
+}
+
+// commitHeader sends the recorded status (200 if none) to the underlying writer, once
+func (g *gzipResponseWriter) commitHeader() {
+	if g.headerSent {
+		return
+	}
+	g.headerSent = true
+	if !g.wroteHeader {
+		g.statusCode = http.StatusOK
+		g.wroteHeader = true
+	}
+	g.ResponseWriter.WriteHeader(g.statusCode)
 }
 
 func (g *gzipResponseWriter) Write(b []byte) (int, error) {
@@ -47,6 +67,7 @@ func (g *gzipResponseWriter) Write(b []byte) (int, error) {
 		// Mark as exceeded and fall back to streaming uncompressed
 		if !g.bufferExceeded {
 			g.bufferExceeded = true
+			g.commitHeader()
 			// Flush existing buffer uncompressed
 			if g.buf.Len() > 0 {
 				_, _ = g.ResponseWriter.Write(g.buf.Bytes())
@@ -60,6 +81,11 @@ func (g *gzipResponseWriter) Write(b []byte) (int, error) {
 }
 
 func (g *gzipResponseWriter) Flush() {
+	// While the body is being buffered there is nothing to flush, and flushing the
+	// underlying writer would commit the headers before Finish can set them
+	if !g.bufferExceeded {
+		return
+	}
 	if f, ok := g.ResponseWriter.(http.Flusher); ok {
 		f.Flush()
 	}
@@ -73,10 +99,6 @@ func (g *gzipResponseWriter) Hijack() (net.Conn, *bufio.ReadWriter, error) {
 }
 
 func (g *gzipResponseWriter) Finish() error {
-	if !g.wroteHeader {
-		g.WriteHeader(http.StatusOK)
-	}
-
 	// If buffer was exceeded, data was already streamed uncompressed
 	if g.bufferExceeded {
 		return nil
@@ -84,11 +106,19 @@ func (g *gzipResponseWriter) Finish() error {
 
 	body := g.buf.Bytes()
 
+	// Nothing to compress, or the backend already encoded the body: deliver as is
+	if len(body) == 0 || g.Header().Get("Content-Encoding") != "" {
+		g.commitHeader()
+		_, err := g.ResponseWriter.Write(body)
+		return err
+	}
+
 	clHeader := g.Header().Get("Content-Length")
 	if clHeader != "" {
 		cl, err := strconv.Atoi(clHeader)
 		// if Content-Length header found and is less than the minSize then return the body as is.
 		if err == nil && cl < g.minSize {
+			g.commitHeader()
 			_, err := g.ResponseWriter.Write(body)
 			return err
 		}
@@ -96,6 +126,7 @@ func (g *gzipResponseWriter) Finish() error {
 
 	// acts as a fallback when Content-Length is not available.
 	if len(body) < g.minSize {
+		g.commitHeader()
 		_, err := g.ResponseWriter.Write(body)
 		return err
 	}
@@ -103,6 +134,7 @@ func (g *gzipResponseWriter) Finish() error {
 	// return body as is when Content-Type doesn't match specified in Config
 	ct := g.Header().Get("Content-Type")
 	if !matchesContentType(ct, g.contentTypes) {
+		g.commitHeader()
 		_, err := g.ResponseWriter.Write(body)
 		return err
 	}
@@ -110,6 +142,7 @@ func (g *gzipResponseWriter) Finish() error {
 	g.Header().Set("Content-Encoding", "gzip")
 	// Remove Content-Length since compressed size differs from original
 	g.Header().Del("Content-Length")
+	g.commitHeader()
 
 	gz, err := gzip.NewWriterLevel(g.ResponseWriter, g.level)
 	if err != nil {
